@@ -150,6 +150,15 @@ func propC10(w *World, r *Report, tier string) {
 					r.Fail("eff.input-readonly", name, root.String(), site.Pos, "decode writes "+root.String()+" ("+site.What+" in "+site.Fn+")", nil)
 				}
 			}
+			// a write method applied - possibly inside a helper - to a buffer that wraps the input
+			// stores into the input's backing array (behind its length, or over its start once the
+			// buffer has been drained)
+			for _, op := range s.WriteOps {
+				if op.Root.Kind == "param" && op.Root.Idx == en.inIdx && strings.HasPrefix(op.What, "(*bytes.Buffer).Write") {
+					bad = true
+					r.Fail("eff.input-readonly", name, op.Fn+": "+op.What, op.Pos, "decode calls "+op.What+" on a buffer that wraps the input bytes (in "+op.Fn+"): the octets land in the caller's array", nil)
+				}
+			}
 			if !bad {
 				r.OK("eff.input-readonly")
 			}
